@@ -3,6 +3,8 @@
 package cl
 
 import (
+	"strings"
+
 	"github.com/ohler55/slip"
 )
 
@@ -48,16 +50,16 @@ func (f *Export) Call(s *slip.Scope, args slip.List, depth int) slip.Object {
 	}
 	switch ta := args[0].(type) {
 	case slip.Symbol:
-		p.Export(string(ta))
+		exportSymbol(s, depth, p, string(ta))
 	case slip.String:
-		p.Export(string(ta))
+		exportSymbol(s, depth, p, string(ta))
 	case slip.List:
 		for _, v := range ta {
 			switch tv := v.(type) {
 			case slip.Symbol:
-				p.Export(string(tv))
+				exportSymbol(s, depth, p, string(tv))
 			case slip.String:
-				p.Export(string(tv))
+				exportSymbol(s, depth, p, string(tv))
 			default:
 				slip.TypePanic(s, depth, "symbol", tv, "symbol", "string")
 			}
@@ -66,4 +68,23 @@ func (f *Export) Call(s *slip.Scope, args slip.List, depth int) slip.Object {
 		slip.TypePanic(s, depth, "symbols", ta, "symbol", "string", "list")
 	}
 	return slip.True
+}
+
+// exportSymbol exports name from p. A locked package is not changed, exporting
+// what it already exports is fine.
+func exportSymbol(s *slip.Scope, depth int, p *slip.Package, name string) {
+	if p.Locked && !packageExports(p, name) {
+		slip.PackagePanic(s, depth, p, "Package %s is locked and can not be modified.", p)
+	}
+	p.Export(name)
+}
+
+// packageExports returns true if name is exported by p itself.
+func packageExports(p *slip.Package, name string) bool {
+	name = strings.ToLower(name)
+	if vv := p.GetVarVal(name); vv != nil && vv.Export && (vv.Pkg == p || vv.Pkg == nil) {
+		return true
+	}
+	fi := p.GetFunc(name)
+	return fi != nil && fi.Export && fi.Pkg == p
 }
